@@ -204,8 +204,9 @@ def fromfile (bo : ByteOrder) (t : DType) (bytes : List UInt8) : List Nat :=
   (chunks t.bytes bytes).map (decode bo)
 
 /-- `data.reshape((nrows, ncols))` for `len(data) = nrows*ncols` -/
-def reshape {β : Type} (nrows ncols : Nat) (data : List β) : List (List β) :=
-  (List.range nrows).map fun i => (data.drop (i * ncols)).take ncols
+def reshape {β : Type} : Nat → Nat → List β → List (List β)
+  | 0, _, _ => []
+  | nrows + 1, ncols, data => data.take ncols :: reshape nrows ncols (data.drop ncols)
 
 /-- `_clipdata` followed by `astype(self.dtype)` on one value of the grid's own dtype: `mindata/maxdata`
 are `None`-like when infinite (the default); a finite bound is a scalar of the grid dtype and is applied
